@@ -32,7 +32,7 @@ PLAN = {
     "C16": [("prod", 100000, 5000000, []), ("san", 3000, 60000, ["--no-baseline"]), ("ndebug", 6000, 100000, ["--no-baseline"])],
     "C17": [("prod", 26000, 2000000, []), ("san", 2500, 50000, []), ("ndebug", 4000, 60000, [])],
     "C18": [("trng-getrandom", 40000, 1000000, []), ("trng-getentropy", 40000, 1000000, []), ("trng-syscall", 40000, 1000000, []),
-            ("trng-devurandom", 40000, 1000000, []), ("prod", 15000, 300000, []), ("san", 2500, 50000, []), ("ndebug", 6000, 100000, ["--no-baseline"])],
+            ("trng-devurandom", 40000, 1000000, []), ("prod", 15000, 300000, []), ("san", 2500, 50000, []), ("ndebug", 6000, 100000, [])],
     "C19": [("prod", 100000, 2500000, []), ("hook", 30000, 700000, []), ("san", 4000, 60000, []), ("ndebug", 8000, 100000, []), ("trng-devurandom", 8000, 100000, [])],
     "C20": [("prod", 300000, 5000000, []), ("san", 12000, 150000, []), ("ndebug", 30000, 300000, [])],
 }
